@@ -113,7 +113,7 @@ func C03(c *Ctx) {
 		"(typestate) every store of an order whose Status is a constant is one of: Raised on a fresh order; Rejected under Status==Raised and [elapsed>=DecisionTimeLimit ∧ accepts<MinAccepts] or [rejects > len(signers)-MinAccepts]; Accepted under Status==Raised ∧ accepts>=MinAccepts ∧ ¬(rejects>threshold); Completed under Status==Accepted; any other writer must copy Status from the loaded order (or be genesis import); " +
 		"(A3) in the begin blocker no path runs the minting step after the tally step (one-block delay); inside the completion loop every iteration that stores Completed also mints and dequeues the same id, and every tally outcome dequeues from the raised queue (accept also enqueues in the accepted queue) before the next iteration. " +
 		"Decides these structural necessary conditions on every path; does not decide queue/status consistency as an inductive invariant over histories."
-	r.Rules = []string{"A1.section-writers", "A2.whitelist-action", "A2.raise-guards", "A7.raise-fields", "A2.decide-guards", "A2.decide-once-loop", "A4.decide-fields", "TS.status-transition", "A3.one-block-delay", "A3.completion-pairing", "A3.tally-pairing"}
+	r.Rules = []string{"A1.section-writers", "A2.whitelist-action", "A2.raise-guards", "A7.raise-fields", "A2.decide-guards", "A2.decide-once-loop", "A7.decision-signer-form", "A4.decide-fields", "TS.status-transition", "A3.one-block-delay", "A3.completion-pairing", "A3.tally-pairing"}
 	r.Trusted = []string{"bank MintCoins semantics", "params are read from the store at every use (C16)"}
 	r.NotDecided = []string{"consistency of queues and statuses over all histories (inductive)", "behaviour of uint64 subtraction now-RaiseTime when block time goes backwards"}
 
@@ -361,6 +361,7 @@ func decideRules(c *Ctx) {
 func decideOnce(c *Ctx, h *ssa.Function, site ssa.Instruction, k string) {
 	w, r := c.W, c.R
 	ok := false
+	form := ""
 	detail := "no rejecting loop over the order's decisions comparing the signer"
 	// the loop may stand in the handler or in any helper expanded on the way (flat view)
 	root := w.FlatRoot(h)
@@ -385,7 +386,18 @@ func decideOnce(c *Ctx, h *ssa.Function, site ssa.Instruction, k string) {
 			var rejectSucc int
 			for si, pol := range []bool{true, false} {
 				p := ir.Pred{E: e, Pol: pol}
-				if cmpIs(p, "==", func(x *ir.Expr) bool { return isMsgField(x, "Signer") }, func(y *ir.Expr) bool {
+				if cmpIs(p, "==", func(x *ir.Expr) bool {
+				// the signer as spelled in the message, or its canonical bech32 form str(addr(msg.Signer))
+				if isMsgField(x, "Signer") {
+					form = "the raw msg.Signer string"
+					return true
+				}
+				if (x.Op == "call" || x.Op == "invoke") && strings.HasSuffix(x.Name, "AccAddress).String") && len(x.Args) >= 1 && isAddrOf(x.Args[0], "Signer") {
+					form = "canonical"
+					return true
+				}
+				return false
+			}, func(y *ir.Expr) bool {
 					if y.Op != "field" || y.Name != "Signer" || len(y.Args) != 1 || y.Args[0].Op != "elem" {
 						return false
 					}
@@ -438,6 +450,13 @@ func decideOnce(c *Ctx, h *ssa.Function, site ssa.Instruction, k string) {
 		}
 	}
 	r.Require(ok, "A2.decide-once-loop", k, pos(c, site), "each signer decides at most once per order: a loop over the order's decisions rejects a repeated signer before the decision is recorded", detail)
+	if ok {
+		// writer/reader agreement: decisions are stored under str(addr(msg.Signer)) (A4.decide-fields), so the
+		// repeated-signer test must compare that same canonical form. Bech32 is valid in all upper case too: the raw
+		// message string of a second decision spelled that way differs from every stored (lower-case) signer although
+		// it is the same account (finding F8).
+		r.Require(form == "canonical", "A7.decision-signer-form", k, pos(c, site), "the repeated-signer test compares the form the decision is stored under (str(addr(msg.Signer))), not the spelling used in the message", "compares "+form+" with the stored canonical signer")
+	}
 }
 
 type poWriter struct {
